@@ -536,6 +536,7 @@ func genSyntaxErr(repo, out string) error {
 	// len locals as written
 	s.norm.keepIntShort = true
 	s.norm.keepLenLocals = true
+	s.norm.joinDefs = true // canonical: `byteOffset, runeCount := len(buffer), 0` in one statement
 	const file = "jsonpath_parser.go"
 	f, err := s.parse(file)
 	if err != nil {
